@@ -98,6 +98,7 @@ def run(ctx):
     # implementation; the variant of /repo is the one that wins on the cases where the two differ (the corpus holds
     # the distinguishing inputs of the old defect).  No source text is inspected.
     nF = nA = 0
+    cov_contra = 0
     for line in mout.split("\n"):
         if " corrF=" in line:
             _, kv0 = parse_kv_line(line)
@@ -137,6 +138,11 @@ def run(ctx):
         agg["range_list_changed"] += int(kv.get("rchg", "0") or 0)
         agg["trace_admissible_ok"] += 1 if kv.get("mono") == "ok" else 0
         agg["match_sound_ok"] += 1 if kv.get("msound") == "ok" else 0
+        c = kv.get("cov", "?")
+        agg.setdefault("changed_covers_hypotheses", {})
+        agg["changed_covers_hypotheses"][c] = agg["changed_covers_hypotheses"].get(c, 0) + 1
+        if c == "ok" and kv["judge"] != "ok" and "stacks differ" in kv["judge"]:
+            cov_contra += 1
         agg["matched_spans"] += int(kv.get("matched", "0") or 0)
         agg["add_calls"] += int(kv.get("calls", "0") or 0)
         if db > 0 or kv.get("rchg") == "1":
@@ -160,6 +166,8 @@ def run(ctx):
             payload["hypothesis"] = "traceAdmissible (changed_sorted_bounded_partial)"
             ctx.violation("corr", "a call of the port to ts_range_array_add is not admissible (hypothesis of changed_sorted_bounded_partial): " + kv.get("mono", ""),
                           payload, fingerprint={"lang": lang, "corr": "shape"}, found_input=False)
+    ctx.oblige("model:changed_covers-instance", cov_contra == 0 or corr_bad > 0,
+               "%d cases with the hypotheses of changed_covers_partial true, port = implementation, and an uncovered differing byte (would contradict the theorem)" % cov_contra)
     ctx.oblige("corr:ranges-functions=C", f_bad == 0 and (f_cmp > 0 or bool(ctx.replay)), "%d/%d disagreements" % (f_bad, f_cmp))
     ctx.oblige("corr:treeChangedRanges=ts_tree_get_changed_ranges", corr_bad == 0, "%d disagreements" % corr_bad)
     ctx.coverage.update({
